@@ -1,1 +1,2 @@
 import PxProofs.C16
+import PxProofs.C20
